@@ -96,8 +96,19 @@ def _eligible_new_type_impl(b):
     if b.get("kind") != "AssocFn" or not b.get("impl_trait") or (b.get("loc") or {}).get("exp"):
         return False
     adt = b.get("impl_adt")
-    if not adt or not _KNOWN_ADTS or strip_generics(adt) in _KNOWN_ADTS:
+    if not adt or not _KNOWN_ADTS:
         return False
+    if strip_generics(adt) in _KNOWN_ADTS:
+        # `impl From<DispatchFailure> for StoreError`: a conversion *from* a new crate type
+        # into a known one is as new as the type
+        import re as _re
+        src_ = b["impl_trait"] if "<" in b["impl_trait"] else (b.get("path") or "")
+        m_ = _re.search(r"<impl [A-Za-z_0-9:]*<(.*)> for ", src_) or _re.search(r"<(.*)>", src_)
+        targs = _re.findall(r"[A-Za-z_][A-Za-z_0-9:]*", m_.group(1)) if m_ else []
+        krate = (b.get("path") or "").split("::")[0]
+        newarg = [t for t in targs if "::" in t and not t.startswith(("std::", "core::", "alloc::")) and strip_generics(t) not in _KNOWN_ADTS]
+        if not newarg:
+            return False
     if strip_generics(b["impl_trait"]) not in CONV_TRAITS:
         return False
     return sum(1 for bl in b["blocks"] if not bl.get("cleanup")) <= SMALL
